@@ -10,7 +10,7 @@ set_option linter.unusedSimpArgs false
 namespace PortK
 open PortOnK QEntry
 
-variable {size : Int → Nat} {rate : ℚ} {arrivals : List (ℚ × Int)}
+variable {size : Int → Nat} {rate : ℚ} {ql : Option Int} {arrivals : List (ℚ × Int)}
 variable {s : KS} {a : A} {q : QEntry ℚ} {rest : List (QEntry ℚ)}
 
 /-- what `popMin` returns is a minimal entry of the configuration -/
@@ -26,8 +26,8 @@ theorem isMin_of_pop (hk : KInv s a) (hp : popMin s.agenda = some (q, rest)) :
 
 /-- **one kernel step = one configuration step** -/
 theorem kstep (fuel : Nat) {outs : List (Int × ℚ)} (hk : KInv s a)
-    (hi : AInv size rate arrivals a s.now outs) (hp : popMin s.agenda = some (q, rest)) :
-    ∃ s' a' new, step (body size rate) (fuel + 1) s = .ok s' ∧ KInv s' a' ∧ AStep size rate a q a' new ∧
+    (hi : AInv size rate ql arrivals a s.now outs) (hp : popMin s.agenda = some (q, rest)) :
+    ∃ s' a' new, step (body size rate ql) (fuel + 1) s = .ok s' ∧ KInv s' a' ∧ AStep size rate ql a q a' new ∧
       s'.now = q.time ∧ outsOf s'.trace = outsOf s.trace ++ new := by
   obtain ⟨hmin, hperm⟩ := isMin_of_pop hk hp
   have hq := hmin.1
@@ -55,28 +55,28 @@ theorem kstep (fuel : Nat) {outs : List (Int × ℚ)} (hk : KInv s a)
       simp only [hport, PPhase.entries, List.mem_singleton] at hq; subst hq
       have hpa := hi.port
       rw [hport] at hpa
-      obtain ⟨s', h1, h2, h3, h4⟩ := kstep_portInit (size := size) (rate := rate) fuel hk hport hpa.2.2.1 hp hrest
+      obtain ⟨s', h1, h2, h3, h4⟩ := kstep_portInit (size := size) (rate := rate) (ql := ql) fuel hk hport hpa.2.2.1 hp hrest
       exact ⟨s', _, [], h1, h2, AStep.portInit a q _ hport, h3, by simpa using h4⟩
     | H g id q0 =>
       simp only [hport, PPhase.entries, List.mem_singleton] at hq; subst hq
       by_cases hr : 0 < rate
-      · obtain ⟨s', h1, h2, h3, h4⟩ := kstep_serve (size := size) fuel hr hk hport hp hrest
+      · obtain ⟨s', h1, h2, h3, h4⟩ := kstep_serve (size := size) (ql := ql) fuel hr hk hport hp hrest
         exact ⟨s', _, [], h1, h2, AStep.serveTx a q _ g _ id hport hr ⟨rfl, rfl⟩, h3, by simpa using h4⟩
       · cases hit : a.items with
         | nil =>
-          obtain ⟨s', h1, h2, h3, h4⟩ := kstep_serveNowIdle (size := size) fuel hr hk hport hit hp hrest
+          obtain ⟨s', h1, h2, h3, h4⟩ := kstep_serveNowIdle (size := size) (ql := ql) fuel hr hk hport hit hp hrest
           exact ⟨s', _, _, h1, h2, AStep.serveNowIdle a q g _ id hport hr hit, h3, h4⟩
         | cons i is =>
-          obtain ⟨s', h1, h2, h3, h4⟩ := kstep_serveNowNext (size := size) fuel hr hk hport hit hp hrest
+          obtain ⟨s', h1, h2, h3, h4⟩ := kstep_serveNowNext (size := size) (ql := ql) fuel hr hk hport hit hp hrest
           exact ⟨s', _, _, h1, h2, AStep.serveNowNext a q _ g _ id i is hport hr hit ⟨rfl, rfl⟩, h3, h4⟩
     | T t id q0 =>
       simp only [hport, PPhase.entries, List.mem_singleton] at hq; subst hq
       cases hit : a.items with
       | nil =>
-        obtain ⟨s', h1, h2, h3, h4⟩ := kstep_fireIdle (size := size) (rate := rate) fuel hk hport hit hp hrest
+        obtain ⟨s', h1, h2, h3, h4⟩ := kstep_fireIdle (size := size) (rate := rate) (ql := ql) fuel hk hport hit hp hrest
         exact ⟨s', _, _, h1, h2, AStep.fireIdle a q t _ id hport hit, h3, h4⟩
       | cons i is =>
-        obtain ⟨s', h1, h2, h3, h4⟩ := kstep_fireNext (size := size) (rate := rate) fuel hk hport hit hp hrest
+        obtain ⟨s', h1, h2, h3, h4⟩ := kstep_fireNext (size := size) (rate := rate) (ql := ql) fuel hk hport hit hp hrest
         exact ⟨s', _, _, h1, h2, AStep.fireNext a q _ t _ id i is hport hit ⟨rfl, rfl⟩, h3, h4⟩
   · -- an entry of the source process
     have hrest : rest.Perm (a.port.entries ++ a.pend.toList) := by
@@ -105,16 +105,16 @@ theorem kstep (fuel : Nat) {outs : List (Int × ℚ)} (hk : KInv s a)
       rw [hsrc] at hsa
       cases arr with
       | nil =>
-        obtain ⟨s', h1, h2, h3, h4⟩ := kstep_srcInitEnd (size := size) (rate := rate) fuel hk hsrc hp hrest
+        obtain ⟨s', h1, h2, h3, h4⟩ := kstep_srcInitEnd (size := size) (rate := rate) (ql := ql) fuel hk hsrc hp hrest
         exact ⟨s', _, [], h1, h2, AStep.srcInitEnd a q _ hsrc rfl rfl, h3, by simpa using h4⟩
       | cons x arr =>
         obtain ⟨gap, id⟩ := x
         have hgap : 0 ≤ gap := hsa.2.2.1 (gap, id) (by simp)
-        obtain ⟨s', h1, h2, h3, h4⟩ := kstep_srcInitWait (size := size) (rate := rate) fuel hk hsrc hgap hp hrest
+        obtain ⟨s', h1, h2, h3, h4⟩ := kstep_srcInitWait (size := size) (rate := rate) (ql := ql) fuel hk hsrc hgap hp hrest
         exact ⟨s', _, [], h1, h2, AStep.srcInitWait a q _ gap id arr hsrc rfl rfl, h3, by simpa using h4⟩
     | ending q0 =>
       simp only [hsrc, SPhase.entries, List.mem_singleton] at hq; subst hq
-      obtain ⟨s', h1, h2, h3, h4⟩ := kstep_srcEnd (size := size) (rate := rate) fuel hk hsrc hp hrest
+      obtain ⟨s', h1, h2, h3, h4⟩ := kstep_srcEnd (size := size) (rate := rate) (ql := ql) fuel hk hsrc hp hrest
       exact ⟨s', _, [], h1, h2, AStep.srcEnd a q hsrc, h3, by simpa using h4⟩
     | wait id arr q0 =>
       simp only [hsrc, SPhase.entries, List.mem_singleton] at hq; subst hq
@@ -126,16 +126,42 @@ theorem kstep (fuel : Nat) {outs : List (Int × ℚ)} (hk : KInv s a)
           exfalso
           have hu := hi.pend u hpe
           exact hi.not_eid_lt hmin (mem_pend hpe) hu.1 (hu.2.trans hsa.1.symm) (hsa.2.2 u hpe)
-      cases arr with
-      | nil =>
-        obtain ⟨s', h1, h2, h3, h4⟩ := kstep_srcPutEnd (size := size) (rate := rate) fuel hk hsrc hn hp hrest
-        exact ⟨s', _, [], h1, h2, AStep.srcPutEnd a q _ _ id hsrc hn ⟨rfl, rfl⟩ ⟨rfl, rfl⟩, h3, by simpa using h4⟩
-      | cons x arr =>
-        obtain ⟨gap, id'⟩ := x
-        have hgap : 0 ≤ gap := hsa.2.1 (gap, id') (by simp)
-        obtain ⟨s', h1, h2, h3, h4⟩ := kstep_srcPutWait (size := size) (rate := rate) fuel hk hsrc hn hgap hp hrest
-        exact ⟨s', _, [], h1, h2,
-          AStep.srcPutWait a q _ _ id gap id' arr hsrc hn ⟨rfl, rfl⟩ ⟨rfl, rfl⟩ (Nat.lt_succ_self _), h3, by simpa using h4⟩
+      have hrefuse : ∀ b : Int, (refuses ql b = false → ∀ l, ql = some l → ¬ l < b) ∧
+          (refuses ql b = true → ∃ l, ql = some l ∧ l < b) := by
+        intro b
+        cases ql with
+        | none => simp [refuses]
+        | some l => simp [refuses]
+      cases hacc : refuses ql (a.bytes + (size id : Int)) with
+      | false =>
+        have hacc' := (hrefuse _).1 hacc
+        cases arr with
+        | nil =>
+          obtain ⟨s', h1, h2, h3, h4⟩ :=
+            kstep_srcPutEnd (size := size) (rate := rate) (ql := ql) fuel hk hsrc hn hacc hp hrest
+          exact ⟨s', _, [], h1, h2, AStep.srcPutEnd a q _ _ id hsrc hn hacc' ⟨rfl, rfl⟩ ⟨rfl, rfl⟩, h3, by simpa using h4⟩
+        | cons x arr =>
+          obtain ⟨gap, id'⟩ := x
+          have hgap : 0 ≤ gap := hsa.2.1 (gap, id') (by simp)
+          obtain ⟨s', h1, h2, h3, h4⟩ :=
+            kstep_srcPutWait (size := size) (rate := rate) (ql := ql) fuel hk hsrc hn hgap hacc hp hrest
+          exact ⟨s', _, [], h1, h2,
+            AStep.srcPutWait a q _ _ id gap id' arr hsrc hn hacc' ⟨rfl, rfl⟩ ⟨rfl, rfl⟩ (Nat.lt_succ_self _), h3,
+            by simpa using h4⟩
+      | true =>
+        obtain ⟨l, hl, hdrop⟩ := (hrefuse _).2 hacc
+        cases arr with
+        | nil =>
+          obtain ⟨s', h1, h2, h3, h4⟩ :=
+            kstep_srcDropEnd (size := size) (rate := rate) (ql := ql) fuel hk hsrc hacc hp hrest
+          exact ⟨s', _, [], h1, h2, AStep.srcDropEnd a q _ id l hsrc hn hl hdrop ⟨rfl, rfl⟩, h3, by simpa using h4⟩
+        | cons x arr =>
+          obtain ⟨gap, id'⟩ := x
+          have hgap : 0 ≤ gap := hsa.2.1 (gap, id') (by simp)
+          obtain ⟨s', h1, h2, h3, h4⟩ :=
+            kstep_srcDropWait (size := size) (rate := rate) (ql := ql) fuel hk hsrc hgap hacc hp hrest
+          exact ⟨s', _, [], h1, h2, AStep.srcDropWait a q _ id gap id' arr l hsrc hn hl hdrop ⟨rfl, rfl⟩, h3,
+            by simpa using h4⟩
   · -- the pending `StorePut` event
     have hpe : a.pend = some q := by
       cases hpe : a.pend with
@@ -150,7 +176,7 @@ theorem kstep (fuel : Nat) {outs : List (Int × ℚ)} (hk : KInv s a)
       exact this.cons_inv.symm
     by_cases hw : ∃ g i is, a.port = .W g ∧ a.items = i :: is
     · obtain ⟨g, i, is, hport, hit⟩ := hw
-      obtain ⟨s', h1, h2, h3, h4⟩ := kstep_putHand (size := size) (rate := rate) fuel hk hpe hport hit hp hrest
+      obtain ⟨s', h1, h2, h3, h4⟩ := kstep_putHand (size := size) (rate := rate) (ql := ql) fuel hk hpe hport hit hp hrest
       exact ⟨s', _, [], h1, h2, AStep.putHand a q _ g i is hpe hport hit ⟨rfl, rfl⟩, h3, by simpa using h4⟩
     · have hw' : a.port.getQ = [] ∨ a.items = [] := by
         cases hport : a.port with
@@ -162,24 +188,25 @@ theorem kstep (fuel : Nat) {outs : List (Int × ℚ)} (hk : KInv s a)
         | init q0 => left; rfl
         | H g i q0 => left; rfl
         | T t i q0 => left; rfl
-      obtain ⟨s', h1, h2, h3, h4⟩ := kstep_putIdle (size := size) (rate := rate) fuel hk hpe hw' hp hrest
+      obtain ⟨s', h1, h2, h3, h4⟩ := kstep_putIdle (size := size) (rate := rate) (ql := ql) fuel hk hpe hw' hp hrest
       exact ⟨s', _, [], h1, h2, AStep.putIdle a q hpe hw', h3, by simpa using h4⟩
 
 /-! ## the combined invariant -/
 
 /-- the kernel state `s` of the run on `arrivals` is the configuration `a`, and `a` is sound -/
-structure Inv (size : Int → Nat) (rate : ℚ) (arrivals : List (ℚ × Int)) (s : KS) (a : A) : Prop where
+structure Inv (size : Int → Nat) (rate : ℚ) (ql : Option Int) (arrivals : List (ℚ × Int)) (s : KS) (a : A) :
+    Prop where
   k : KInv s a
-  a : AInv size rate arrivals a s.now (outsOf s.trace)
+  a : AInv size rate ql arrivals a s.now (outsOf s.trace)
 
 /-- **one kernel step**: it is `.ok`, keeps the invariant, uses one unit of the step budget, appends the departures
 `new` to the trace, and is a sequence of actions the Port LTS accepts from `toF a` to `toF a'` -/
-theorem inv_step (fuel : Nat) (h : Inv size rate arrivals s a)
+theorem inv_step (fuel : Nat) (h : Inv size rate ql arrivals s a)
     (hp : popMin s.agenda = some (q, rest)) :
-    ∃ s' a' new, step (body size rate) (fuel + 1) s = .ok s' ∧ Inv size rate arrivals s' a' ∧ a'.mu + 1 ≤ a.mu ∧
+    ∃ s' a' new, step (body size rate ql) (fuel + 1) s = .ok s' ∧ Inv size rate ql arrivals s' a' ∧ a'.mu + 1 ≤ a.mu ∧
       outsOf s'.trace = outsOf s.trace ++ new ∧
-      ∃ acts insI, a'.putIds = a.putIds ++ insI ∧
-        Fifo.runActs (Port.dev (cfg rate)) (toF size a s.now) acts =
+      ∃ acts insI, a'.accIds = a.accIds ++ insI ∧
+        Fifo.runActs (Port.dev (cfg rate ql)) (toF size a s.now) acts =
           .ok (toF size a' s'.now, insI.map Int.toNat, new.map (·.1.toNat)) := by
   obtain ⟨s', a', new, h1, h2, h3, h4, h5⟩ := kstep fuel h.k h.a hp
   obtain ⟨g1, g2, g3⟩ := astep_sound h.a (isMin_of_pop h.k hp).1 h3
@@ -197,9 +224,9 @@ theorem popMin_none {l : List (QEntry ℚ)} (h : popMin l = none) : l = [] := by
     | some mr => rw [hp] at h; simp only at h; split at h <;> cases h
 
 /-- with an empty agenda everything has left: the trace holds exactly the departure recurrence -/
-theorem inv_final (h : Inv size rate arrivals s a) (he : s.agenda = []) :
-    outsOf s.trace = departures size rate none 0 arrivals ∧ a.items = [] ∧ a.putIds = arrivals.map (·.2) ∧
-      a.mu = 0 := by
+theorem inv_final (h : Inv size rate ql arrivals s a) (he : s.agenda = []) :
+    (ql = none → outsOf s.trace = departures size rate none 0 arrivals) ∧ a.items = [] ∧
+      a.putIds = arrivals.map (·.2) ∧ a.mu = 0 := by
   have hag := h.k.ag
   rw [he] at hag
   have hent : a.entries = [] := List.Perm.eq_nil hag.symm
@@ -224,15 +251,16 @@ theorem inv_final (h : Inv size rate arrivals s a) (he : s.agenda = []) :
         have := h.a.idle (by simp [hport, PPhase.idle]) hc
         rw [hpe'] at this; cases this
       refine ⟨?_, hit, ?_, ?_⟩
-      · have := h.a.ghost
+      · intro hql
+        have := h.a.ghost hql
         simpa [pred, hport, hit, hsrc, SPhase.todo, departures] using this
       · have := h.a.puts
         simpa [hsrc, SPhase.ids] using this.symm
       · simp [A.mu, hport, hsrc, hpe', hit, PPhase.mu, SPhase.mu]
 
 /-- **`run()` returns**: with more step budget than the configuration needs, `runLoop` ends with an empty agenda -/
-theorem run_returns (fuel : Nat) : ∀ (n : Nat) (s : KS) (a : A), Inv size rate arrivals s a → a.mu < n →
-    ∃ sF aF, runLoop (body size rate) (fuel + 1) none n s = .returned .none sF ∧ Inv size rate arrivals sF aF ∧
+theorem run_returns (fuel : Nat) : ∀ (n : Nat) (s : KS) (a : A), Inv size rate ql arrivals s a → a.mu < n →
+    ∃ sF aF, runLoop (body size rate ql) (fuel + 1) none n s = .returned .none sF ∧ Inv size rate ql arrivals sF aF ∧
       sF.agenda = []
   | 0, _, _, _, hmu => absurd hmu (Nat.not_lt_zero _)
   | n + 1, s, a, h, hmu => by
@@ -251,7 +279,7 @@ theorem run_returns (fuel : Nat) : ∀ (n : Nat) (s : KS) (a : A), Inv size rate
 /-- the configuration of the initial state -/
 def a0 (arrivals : List (ℚ × Int)) : A :=
   { port := .init ⟨0, URGENT, 0, 1⟩, src := .init ⟨0, URGENT, 1, 3⟩ arrivals, pend := none, items := [], bytes := 0,
-    recv := 0, busy := false, bsz := 0, last := none, putIds := [] }
+    recv := 0, busy := false, bsz := 0, last := none, putIds := [], dropped := 0, accIds := [] }
 
 /-- the initial state written out -/
 def initFlat (arrivals : List (ℚ × Int)) : KS :=
@@ -264,17 +292,17 @@ def initFlat (arrivals : List (ℚ × Int)) : KS :=
         { kind := Kind.proc, cbs := some [], out := none, label := 2 },
         { kind := Kind.init 2, cbs := some [Cb.resume 2], out := some (Outcome.ok Val.none) }],
     procs := [(2, { st := PSt.src none arrivals, target := some 3 }), (0, { st := PSt.portStart, target := some 1 })],
-    shared := [(0, Val.int 0), (1, Val.int 0), (2, Val.int 0), (3, Val.int 0)],
+    shared := [(0, Val.int 0), (1, Val.int 0), (2, Val.int 0), (3, Val.int 0), (4, Val.int 0)],
     resources := #[{ kind := ResKind.store, capacity := none }], nlabel := 2 }
 
 theorem initState_eq (arrivals : List (ℚ × Int)) : (initState arrivals : KS) = initFlat arrivals := by
   simp [-Array.getD_eq_getD_getElem?, initState, doCall, KState.newLabelled, KState.newEv, KState.setProc, KState.schedule,
-    zero_eq', initFlat, cByteSize, cReceived, cBusy, cBusySize]
+    zero_eq', initFlat, cByteSize, cReceived, cBusy, cBusySize, cDropped]
 
 theorem inv_init (arrivals : List (ℚ × Int)) (hg : GapsOK arrivals) :
-    Inv size rate arrivals (initState arrivals) (a0 arrivals) := by
+    Inv size rate ql arrivals (initState arrivals) (a0 arrivals) := by
   rw [initState_eq]
-  refine ⟨⟨⟨?_, ?_, ?_⟩, ?_, ?_, ?_, ?_, ?_, ?_, ?_, ?_, ?_, ?_⟩, ⟨?_, ?_, ?_, ?_, ?_, ?_, ?_, ?_, ?_⟩⟩
+  refine ⟨⟨⟨?_, ?_, ?_⟩, ?_, ?_, ?_, ?_, ?_, ?_, ?_, ?_, ?_, ?_, ?_⟩, ⟨?_, ?_, ?_, ?_, ?_, ?_, ?_, ?_, ?_, ?_, ?_⟩⟩
   · intro q hq; simp [initFlat] at hq; rcases hq with rfl | rfl <;> simp [initFlat]
   · intro q hq; simp [initFlat] at hq; rcases hq with rfl | rfl <;> simp [initFlat]
   · simp [initFlat]
@@ -294,6 +322,7 @@ theorem inv_init (arrivals : List (ℚ × Int)) (hg : GapsOK arrivals) :
   · simp [initFlat, lookup, a0]
   · simp [initFlat, lookup, a0]
   · simp [initFlat, lookup, a0]
+  · simp [initFlat, lookup, a0]
   · exact ⟨rfl, rfl, rfl, rfl, rfl⟩
   · exact ⟨rfl, rfl, hg, rfl⟩
   · intro u hu; cases hu
@@ -302,9 +331,11 @@ theorem inv_init (arrivals : List (ℚ × Int)) (hg : GapsOK arrivals) :
   · intro x hx
     simp [a0, A.entries, PPhase.entries, SPhase.entries] at hx
     rcases hx with rfl | rfl <;> simp [initFlat]
-  · simp [initFlat, outsOf, pred, a0, SPhase.todo]
+  · intro _; simp [initFlat, outsOf, pred, a0, SPhase.todo]
   · simp [a0, SPhase.ids]
   · rfl
+  · rfl
+  · intro _; rfl
 /-! ## the abstraction function -/
 
 theorem find?_unique {α} (l : List α) (p : α → Bool) (x : α) (hx : x ∈ l) (hp : p x = true)
@@ -364,10 +395,11 @@ theorem dueOf_eq (hk : KInv s a) {t : EvId} {id : Int} {q : QEntry ℚ} (hport :
 
 /-- **the abstraction function reads the configuration's LTS state off the kernel state** -/
 theorem absPort_eq (hk : KInv s a) : absPort size s = toF size a s.now := by
-  have hdev : absDev s = { byteSize := a.bytes, received := a.recv, busy := a.busy, busySize := a.bsz, avg := 0 } := by
+  have hdev : absDev s =
+      { byteSize := a.bytes, received := a.recv, dropped := a.dropped, busy := a.busy, busySize := a.bsz, avg := 0 } := by
     unfold absDev
-    simp only [cByteSize, cReceived, cBusy, cBusySize]
-    rw [cellInt_of hk.c0, cellInt_of hk.c1, cellInt_of hk.c2, cellInt_of hk.c3, zero_eq']
+    simp only [cByteSize, cReceived, cBusy, cBusySize, cDropped]
+    rw [cellInt_of hk.c0, cellInt_of hk.c1, cellInt_of hk.c2, cellInt_of hk.c3, cellInt_of hk.c4, zero_eq']
     cases a.busy <;> simp
   have hitems : (s.res storeId).items = a.items := by
     show (s.res 0).items = a.items; rw [hk.res]; rfl
@@ -399,7 +431,7 @@ theorem absPort_dev (size : Int → Nat) (s : KS) : (absPort size s).dev = absDe
 theorem toF_a0 (arrivals : List (ℚ × Int)) : toF size (a0 arrivals) 0 = Fifo.init ({ avg := 0 } : PortSt ℚ) 0 := rfl
 
 /-- ids handed to `put` so far = the first `packets_received` arrivals -/
-theorem putIds_eq (h : Inv size rate arrivals s a) :
+theorem putIds_eq (h : Inv size rate ql arrivals s a) :
     a.putIds = (arrivals.take (cellInt s cReceived).toNat).map (·.2) := by
   have h1 := h.a.puts
   have h2 := h.a.nput
@@ -409,10 +441,10 @@ theorem putIds_eq (h : Inv size rate arrivals s a) :
 /-- **every state reachable by kernel steps is a sound configuration, and the run so far is an admissible run of
 the Port LTS** from its initial state to the configuration's LTS state, with the same arrivals and departures -/
 theorem reach_inv (fuel : Nat) (hg : GapsOK arrivals) {s : KS}
-    (h : KReach (body size rate) (fuel + 1) (initState arrivals) s) :
-    ∃ a acts, Inv size rate arrivals s a ∧
-      Fifo.runActs (Port.dev (cfg rate)) (Fifo.init ({ avg := 0 } : PortSt ℚ) 0) acts =
-        .ok (toF size a s.now, a.putIds.map Int.toNat, (outsOf s.trace).map (·.1.toNat)) := by
+    (h : KReach (body size rate ql) (fuel + 1) (initState arrivals) s) :
+    ∃ a acts, Inv size rate ql arrivals s a ∧
+      Fifo.runActs (Port.dev (cfg rate ql)) (Fifo.init ({ avg := 0 } : PortSt ℚ) 0) acts =
+        .ok (toF size a s.now, a.accIds.map Int.toNat, (outsOf s.trace).map (·.1.toNat)) := by
   induction h with
   | init =>
     refine ⟨a0 arrivals, [], inv_init arrivals hg, ?_⟩
